@@ -174,8 +174,11 @@ func nestedUDP(depth, qsize int, how string) NestedRec {
 			// the peer has no answer yet and retransmits its request (same message ID) while the handler waits for its nested
 			// request: the copy is not processed a second time - and it does not stall the connection either
 			// (a retransmission comes seconds later: the handler has long settled down to wait for the nested response)
-			time.Sleep(5 * time.Millisecond)
-			inject(memnet.Build(message.Confirmable, int(codes.GET), outerMID[d], tok, message.Options{{ID: message.URIPath, Value: []byte(fmt.Sprintf("n%d", d))}}, nil))
+			// ... twice, as a peer does that still has no answer
+			for k := 0; k < 2; k++ {
+				time.Sleep(5 * time.Millisecond)
+				inject(memnet.Build(message.Confirmable, int(codes.GET), outerMID[d], tok, message.Options{{ID: message.URIPath, Value: []byte(fmt.Sprintf("n%d", d))}}, nil))
+			}
 		}
 		// while the handler is blocked an unrelated request must still be served
 		mid++
